@@ -154,7 +154,7 @@ def recorded_on_every_exit(ctx, f, fld, src):
             pass
     for d in f.all("decl"):
         for v in f.nodes[d].get("vars", []):
-            if "ScopeGuard" in v.get("type", "") and any(x in lam for x in [f.nodes[y].get("usr") for y in f.walk(v.get("init", -1)) if v.get("init", -1) is not None and v.get("init", -1) >= 0] if x):
+            if "ScopeGuard" in v.get("type", "") and any(x in lam for x in [f.nodes[y].get("lusr") or f.nodes[y].get("usr") for y in f.walk(v.get("init", -1)) if v.get("init", -1) is not None and v.get("init", -1) >= 0] if x):
                 ev.setdefault(d, []).append(("set", "recorded"))
     if not ev:
         # fall back: any scope guard declaration when exactly the guard's closure writes the field
